@@ -20,7 +20,10 @@ import (
 
 func TestMain(m *testing.M) { harness.Main(m, "C17") }
 
-var gWidth = map[string]int{"a": 1, "b": 1, "Z": 1, "1": 1, " ": 1, "-": 1, ".": 1, "宽": 2, "é": 1, "👩‍🚀": 2, "🇺🇸": 2}
+var gWidth = map[string]int{"a": 1, "b": 1, "Z": 1, "1": 1, " ": 1, "-": 1, ".": 1, "宽": 2, "é": 1, "👩‍🚀": 2, "🇺🇸": 2,
+	// lone regional indicators (typed one at a time; the library's width function, like terminals, gives a lone one two
+	// columns) and the flags two of them make once they are neighbours
+	"🇩": 2, "🇪": 2, "🇩🇪": 2, "🇪🇩": 2, "🇩🇩": 2, "🇪🇪": 2}
 var alphabet = []string{"a", "b", "Z", "1", " ", "-", ".", "宽", "é", "👩‍🚀", "🇺🇸"}
 
 // Op is one editing operation.
@@ -43,9 +46,43 @@ type Case struct {
 type ideal struct {
 	t []string
 	c int
+	// loose: a deletion made its two neighbours one cluster and the cursor
+	// was between them; an ideal editor may put it on either side, so the
+	// cursor is not compared until an operation sets it absolutely
+	loose bool
+}
+
+// afterDelete re-segments the text: the neighbours of a deleted cluster can
+// form one cluster (two lone regional indicators make a flag).
+func (e *ideal) afterDelete() {
+	t2 := segment(strings.Join(e.t, ""))
+	same := len(t2) == len(e.t)
+	for i := 0; same && i < len(t2); i++ {
+		same = t2[i] == e.t[i]
+	}
+	if !same {
+		harness.R.Label("histories", "a deletion merged its neighbours into one cluster")
+		off := len(strings.Join(e.t[:e.c], ""))
+		e.t = t2
+		pos, inside := 0, false
+		e.c = len(e.t)
+		for i, g := range e.t {
+			if pos == off {
+				e.c = i
+				break
+			}
+			if pos < off && off < pos+len(g) {
+				e.c, inside = i+1, true
+				break
+			}
+			pos += len(g)
+		}
+		e.loose = inside
+	}
 }
 
 func (e *ideal) insert(g []string) { e.insertRaw(strings.Join(g, "")) }
+
 // segment splits a string into the clusters of the test alphabet: a combining
 // mark, a variation selector or a joiner attaches to what precedes it, and
 // what follows a joiner attaches too.
@@ -96,6 +133,16 @@ func (e *ideal) insertRaw(ins string) {
 func gw(g string) int {
 	if w, ok := gWidth[g]; ok {
 		return w
+	}
+	ri := strings.TrimRight(g, "\u0301") != ""
+	for _, r := range strings.TrimRight(g, "\u0301") {
+		if r < 0x1F1E6 || r > 0x1F1FF {
+			ri = false
+		}
+	}
+	if ri {
+		// one or two regional indicators: two columns either way
+		return 2
 	}
 	base := strings.TrimRight(g, "\u0301")
 	if w, ok := gWidth[base]; ok {
@@ -195,6 +242,9 @@ func runTextField(c Case) string {
 		if err != nil || s.Cursor == nil {
 			return fmt.Sprintf("after op %d %v Draw gave no cursor", i, op)
 		}
+		if e.loose {
+			return ""
+		}
 		if int(s.Cursor.Col) != e.widthBefore() {
 			return fmt.Sprintf("after op %d %v (text %q) the cursor is drawn at column %d; an ideal editor has it before grapheme %d of %d = column %d", i, op, e.value(), s.Cursor.Col, e.c, len(e.t), e.widthBefore())
 		}
@@ -208,7 +258,23 @@ func runTextField(c Case) string {
 		preVal := e.value()
 		var ev vaxis.Event
 		edit := false
+		if e.loose {
+			switch op.K {
+			case "home", "ctrl-a", "end", "ctrl-e", "api-reset", "api-cursor", "enter", "release":
+				// sets the cursor absolutely (or does not use it)
+			default:
+				harness.R.Label("histories", "history ended: cursor-relative operation while the cursor may be on either side of a merged cluster")
+				return ""
+			}
+			if op.K != "release" {
+				e.loose = false
+			}
+		}
 		switch op.K {
+		case "type-ri":
+			ev = textKey(op.G[0])
+			e.insertRaw(op.G[0])
+			edit = true
 		case "type":
 			ev = textKey(strings.Join(op.G, ""))
 			e.insert(op.G)
@@ -239,6 +305,7 @@ func runTextField(c Case) string {
 			ev = key(vaxis.KeyDelete, 0)
 			if e.c < len(e.t) {
 				e.t = append(e.t[:e.c:e.c], e.t[e.c+1:]...)
+				e.afterDelete()
 			}
 			edit = true
 		case "backspace":
@@ -246,6 +313,7 @@ func runTextField(c Case) string {
 			if e.c > 0 {
 				e.t = append(e.t[:e.c-1:e.c-1], e.t[e.c:]...)
 				e.c--
+				e.afterDelete()
 			}
 			edit = true
 		case "ctrl-k":
@@ -266,12 +334,14 @@ func runTextField(c Case) string {
 			tf.DeleteCharRightOfCursor()
 			if e.c < len(e.t) {
 				e.t = append(e.t[:e.c:e.c], e.t[e.c+1:]...)
+				e.afterDelete()
 			}
 		case "api-del-left":
 			tf.DeleteCharLeftOfCursor()
 			if e.c > 0 {
 				e.t = append(e.t[:e.c-1:e.c-1], e.t[e.c:]...)
 				e.c--
+				e.afterDelete()
 			}
 		case "api-del-eol":
 			tf.DeleteCursorToEndOfLine()
@@ -316,7 +386,7 @@ func runTextField(c Case) string {
 			if !within(func() { s, _ = tf.Draw(ctxW(w)) }) {
 				return fmt.Sprintf("after op %d %v Draw at width %d does not return", i, op, w)
 			}
-			if w > 0 && e.total() < w && s.Cursor != nil && int(s.Cursor.Col) != e.widthBefore() {
+			if w > 0 && e.total() < w && s.Cursor != nil && !e.loose && int(s.Cursor.Col) != e.widthBefore() {
 				return fmt.Sprintf("after op %d %v the text %q fits width %d but the cursor is drawn at column %d, want %d", i, op, e.value(), w, s.Cursor.Col, e.widthBefore())
 			}
 		}
@@ -536,7 +606,7 @@ func run(c Case) string {
 
 // ---------------------------------------------------------------------------
 
-var fieldOps = []string{"type", "type", "type", "type-mark", "home", "ctrl-a", "end", "ctrl-e", "right", "left", "left", "delete", "backspace", "backspace", "ctrl-k", "enter", "release",
+var fieldOps = []string{"type", "type", "type", "type-mark", "type-ri", "home", "ctrl-a", "end", "ctrl-e", "right", "left", "left", "delete", "backspace", "backspace", "ctrl-k", "enter", "release",
 	"api-insert", "api-cursor", "api-del-right", "api-del-left", "api-del-eol", "api-reset"}
 var inputOps = []string{"type", "type", "type", "type-mark", "type-shift", "paste", "paste", "home", "ctrl-a", "end", "ctrl-e", "right", "left", "left", "delete", "backspace", "backspace", "ctrl-k", "ctrl-u",
 	"word-fwd", "word-back", "ctrl-w", "release", "ctrl-other", "set"}
@@ -577,8 +647,20 @@ func genCase(rt *rapid.T) Case {
 			op.N = rapid.IntRange(0, 6).Draw(rt, "cut")
 		case "api-cursor":
 			op.N = rapid.IntRange(0, 12).Draw(rt, "idx")
+		case "type-ri":
+			op.G = []string{rapid.SampledFrom([]string{"🇩", "🇪"}).Draw(rt, "ri")}
 		}
 		c.Ops = append(c.Ops, op)
+	}
+	if c.Widget == "textfield" && rapid.IntRange(0, 5).Draw(rt, "ri-sandwich") == 1 {
+		// two lone regional indicators around a cluster, the cluster deleted,
+		// then the cursor sent to the end and back: the random tail follows
+		mid := rapid.SampledFrom([]string{"a", "宽", "é"}).Draw(rt, "mid")
+		del := [][]Op{{{K: "left"}, {K: "backspace"}}, {{K: "left"}, {K: "left"}, {K: "delete"}}, {{K: "left"}, {K: "api-del-left"}}}[rapid.IntRange(0, 2).Draw(rt, "how")]
+		pre := []Op{{K: "api-reset"}, {K: "type-ri", G: []string{"🇩"}}, {K: "type", G: []string{mid}}, {K: "type-ri", G: []string{"🇪"}}}
+		pre = append(pre, del...)
+		pre = append(pre, Op{K: "end"}, Op{K: "left"}, Op{K: "type", G: []string{"b"}})
+		c.Ops = append(pre, c.Ops...)
 	}
 	c.Widths = []int{0, 1, 2, 3, 4, 5, 6, 8, 12, 30}
 	return c
